@@ -125,6 +125,47 @@ class Pulse(Logic):
             self.q.prepare(0)
 
 
+class KW(Logic):
+    """the first block of its circuit; its ports are named after Verilog keywords"""
+    def __init__(self, parent, name, a, r):
+        super().__init__(parent, name)
+        self.addIn('always', a)
+        self.addOut('wire', r)
+        m = self.wire('m', a.getWidth())
+        py4hw.Not(self, 'n0', a, m)
+        py4hw.Not(self, 'n1', m, r)
+
+
+class Core(Logic):
+    """no structureName(): a module per instance; the ports carry names that are Verilog keywords"""
+    def __init__(self, parent, name, a, en, r):
+        super().__init__(parent, name)
+        self.addIn('time', a)
+        self.addIn('event', en)
+        self.addOut('r', r)
+        m = self.wire('m', a.getWidth())
+        py4hw.Reg(self, 'r0', a, m, enable=en)
+        py4hw.Not(self, 'n0', m, r)
+
+
+class Stage(Logic):
+    def __init__(self, parent, name, a, en, r):
+        super().__init__(parent, name)
+        self.addIn('a', a)
+        self.addIn('en', en)
+        self.addOut('r', r)
+        Core(self, 'core', a, en, r)
+
+
+class Lane(Logic):
+    def __init__(self, parent, name, a, en, r):
+        super().__init__(parent, name)
+        self.addIn('a', a)
+        self.addIn('en', en)
+        self.addOut('r', r)
+        Stage(self, 'stage', a, en, r)
+
+
 class TernFirst(Logic):
     """clock() starts with a legal conditional expression"""
     def __init__(self, parent, name, a, r):
@@ -237,6 +278,19 @@ def build(kind):
         c.prim = py4hw.Not(hw, 'not_top', q2, hw.wire('n', 2))
         c.free = [d]
         c.edit = lambda: py4hw.Not(hw, 'extra', q, hw.wire('extra', 2))
+    elif kind == 'lanes':
+        # three levels, equally named blocks in different branches with different content, ports named after Verilog keywords
+        x, e = hw.wire('x', 2), hw.wire('e')
+        y0, y1 = hw.wire('y0', 2), hw.wire('y1', 4)
+        x4 = hw.wire('x4', 4)
+        KW(hw, 'kw', x, hw.wire('kwr', 2))
+        py4hw.ZeroExtend(hw, 'zx', x, x4)
+        c.child = Lane(hw, 'lane0', x, e, y0)
+        c.alt = None
+        c.child2 = Lane(hw, 'lane1', x4, e, y1)
+        c.prim = py4hw.Not(hw, 'not_top', y0, hw.wire('n', 2))
+        c.free = [x, e]
+        c.edit = lambda: py4hw.Not(hw, 'extra', y1, hw.wire('extra', 4))
     elif kind == 'refuse':
         # a block the transpiler must refuse (ternary inside a call): requests for this circuit raise
         a, r = hw.wire('a', 2), hw.wire('r', 2)
@@ -428,7 +482,7 @@ def run_history(kind, kind2, hist, canon, res):
             # the list handed to an earlier request belongs to the caller: entries ("already emitted") never disappear
             return {'sigkey': 'caller_list_lost_entries:%s' % op, 'step': i, 'before': lst_before[:8], 'after': list(c.lst)[:8]}
         for k, t, *w in got:
-            want = w[0] if w else canon[(k, c.edited)]
+            want = w[0] if w else canon.get((k, c.edited), '<no canonical answer: on a pristine circuit this request is refused>')
             res['evaluations'] += 1
             if t != want:
                 if not isinstance(t, str):
@@ -446,7 +500,7 @@ def first_diff(a, b):
     return {'line': min(len(la), len(lb)), 'canonical_lines': len(la), 'got_lines': len(lb)}
 
 
-KINDS = [('comb', 'seq'), ('seq', 'fsm'), ('fsm', 'comb'), ('multiclk', 'comb'), ('beh', 'fsm'), ('beh', 'refuse'), ('partbad', 'comb')]
+KINDS = [('lanes', 'comb'), ('comb', 'seq'), ('seq', 'fsm'), ('fsm', 'comb'), ('multiclk', 'comb'), ('beh', 'fsm'), ('beh', 'refuse'), ('partbad', 'comb')]
 
 
 _CANON = {}
